@@ -792,7 +792,7 @@ func (m *Machine) regexpReplaceAll(re Value, s, repl StrV) Value {
 // idnaToASCII: contract of (*idna.Profile).ToASCII for the repository's profile on
 // ASCII input without ACE labels: result = ASCII-lowercased input, error unconstrained.
 // Anything else ends the path as outside the bound.
-func (m *Machine) idnaToASCII(s StrV) Value {
+func (m *Machine) idnaToASCII(s StrV, errContract bool) Value {
 	st := m.st
 	nonASCII := st.False
 	for _, b := range s.b {
@@ -822,15 +822,27 @@ func (m *Machine) idnaToASCII(s StrV) Value {
 	for i, b := range s.b {
 		out[i] = m.lowerByte(b)
 	}
-	// unconstrained error -- but a function of the input: the same text gets the same answer
-	var kb strings.Builder
-	for _, b := range s.b {
-		fmt.Fprintf(&kb, "%d.", b.id)
-	}
-	e, seen := m.idnaErr[kb.String()]
-	if !seen {
-		e = m.newInput(0, 0)
-		m.idnaErr[kb.String()] = e
+	var e *Term
+	if errContract {
+		// validated contract for the repository's exact profile options: an error is reported
+		// exactly when some byte is outside [A-Za-z0-9.-]
+		e = st.False
+		for _, b := range s.b {
+			ldh := st.Or(st.Or(m.inRange(b, 'a', 'z'), m.inRange(b, 'A', 'Z')), st.Or(m.inRange(b, '0', '9'), st.Or(st.Eq(b, st.Const(8, '-')), st.Eq(b, st.Const(8, '.')))))
+			e = st.Or(e, st.Not(ldh))
+		}
+	} else {
+		// unconstrained error -- but a function of the input: the same text gets the same answer
+		var kb strings.Builder
+		for _, b := range s.b {
+			fmt.Fprintf(&kb, "%d.", b.id)
+		}
+		var seen bool
+		e, seen = m.idnaErr[kb.String()]
+		if !seen {
+			e = m.newInput(0, 0)
+			m.idnaErr[kb.String()] = e
+		}
 	}
 	if m.branch(e) {
 		return TupleV{StrV{out}, m.opaqueError("idna")}
@@ -914,6 +926,17 @@ var _ = fmt.Sprintf
 
 // ---- native mirror of the repository's idna profile (for concrete inputs only) ----
 
+// idnaMirror: the native mirror of the repository's idna profile. validated: the options are
+// exactly those for which the error contract of the stub was validated (7.5M strings, 0 deviations):
+// for ASCII input without ACE labels ToASCII returns the ASCII-lowercased input and reports an
+// error exactly when some byte is outside [A-Za-z0-9.-].
+type idnaMirror struct {
+	prof      *idna.Profile
+	validated bool
+}
+
+const validatedIdnaSig = "MapForLookup(false);BidiRule(false);VerifyDNSLength(false);StrictDomainName(true);ValidateLabels(true);CheckHyphens(false);CheckJoiners(true);Transitional(false);"
+
 type idnaOpt struct {
 	name string
 	arg  bool
@@ -928,6 +951,7 @@ func (m *Machine) idnaConstruct(fn *ssa.Function, args []Value) Value {
 	if name == "New" {
 		var opts []idna.Option
 		okAll := true
+		sig := ""
 		if len(args) == 1 {
 			if sl, ok := args[0].(SliceV); ok {
 				for i := 0; i < sl.len; i++ {
@@ -938,6 +962,7 @@ func (m *Machine) idnaConstruct(fn *ssa.Function, args []Value) Value {
 						break
 					}
 					io := o.data.(idnaOpt)
+					sig += fmt.Sprintf("%s(%v);", io.name, io.arg)
 					switch io.name {
 					case "MapForLookup":
 						opts = append(opts, idna.MapForLookup())
@@ -968,9 +993,9 @@ func (m *Machine) idnaConstruct(fn *ssa.Function, args []Value) Value {
 			}
 		}
 		if okAll {
-			return OpaqueV{kind: "idnaprofile", data: idna.New(opts...)}
+			return OpaqueV{kind: "idnaprofile", data: &idnaMirror{prof: idna.New(opts...), validated: sig == validatedIdnaSig}}
 		}
-		return OpaqueV{kind: "idnaprofile", data: (*idna.Profile)(nil)}
+		return OpaqueV{kind: "idnaprofile", data: &idnaMirror{}}
 	}
 	io := idnaOpt{name: name}
 	if len(args) == 1 {
@@ -983,22 +1008,22 @@ func (m *Machine) idnaConstruct(fn *ssa.Function, args []Value) Value {
 }
 
 func (m *Machine) idnaToASCIIRecv(recv Value, s StrV) Value {
-	if cs, ok := s.concrete(); ok {
-		o, isO := recv.(OpaqueV)
-		if !isO {
-			if p, isP := recv.(PtrV); isP && p.c != nil {
-				o, isO = p.c.v.(OpaqueV)
-			}
-		}
-		if isO && o.kind == "idnaprofile" {
-			if prof, _ := o.data.(*idna.Profile); prof != nil {
-				a, err := prof.ToASCII(cs)
-				if err != nil {
-					return TupleV{m.strConst(a), m.opaqueError("idna")}
-				}
-				return TupleV{m.strConst(a), IfaceV{}}
-			}
+	o, isO := recv.(OpaqueV)
+	if !isO {
+		if p, isP := recv.(PtrV); isP && p.c != nil {
+			o, isO = p.c.v.(OpaqueV)
 		}
 	}
-	return m.idnaToASCII(s)
+	var mir *idnaMirror
+	if isO && o.kind == "idnaprofile" {
+		mir, _ = o.data.(*idnaMirror)
+	}
+	if cs, ok := s.concrete(); ok && mir != nil && mir.prof != nil {
+		a, err := mir.prof.ToASCII(cs)
+		if err != nil {
+			return TupleV{m.strConst(a), m.opaqueError("idna")}
+		}
+		return TupleV{m.strConst(a), IfaceV{}}
+	}
+	return m.idnaToASCII(s, mir != nil && mir.validated)
 }
